@@ -145,8 +145,19 @@ fn json_layout_mismatch(v: &serde_json::Value, want: &Node, path: &str) -> Optio
     }
 }
 
-/// Execute one case against the real code.  A pure function of `case`.
+thread_local! {
+    /// when set, every case executed on this thread (probes included) is logged, in order
+    static TRACE: std::cell::RefCell<Option<Vec<Case>>> = const { std::cell::RefCell::new(None) };
+}
+
+/// Execute one case against the real code.  A pure function of `case` - unless the code under test keeps state
+/// between calls, which is what the history path in main() is for.
 pub fn run_case(case: &Case) -> Outcome {
+    TRACE.with(|t| {
+        if let Some(v) = t.borrow_mut().as_mut() {
+            v.push(case.clone());
+        }
+    });
     let mut out = Outcome { stored: String::new(), expect: String::new(), returned_ok: false, result: String::new(), history: vec![], violation: None, faults_fired: BTreeMap::new(), skipped_inexact: false };
     let subject = match catch_unwind(AssertUnwindSafe(|| build(case))) {
         Ok(Some(s)) => s,
@@ -539,7 +550,8 @@ struct Stats {
     distinct_all: HashSet<u64>,
     digest: u64,
     samples: Vec<serde_json::Value>,
-    violations: BTreeMap<String, (u64, usize, Case, Outcome)>,
+    /// first violating case per finding key: (value index, case index, case, outcome, first value index of the worker)
+    violations: BTreeMap<String, (u64, usize, Case, Outcome, u64)>,
 }
 
 fn op_name(op: &Op) -> &'static str {
@@ -592,7 +604,7 @@ fn run_range(seed: u64, from: u64, to: u64, thorough: bool) -> Stats {
             if let Some((class, _)) = &o.violation {
                 let key = finding_key(class, case);
                 if st.violations.len() < 256 && !st.violations.contains_key(&key) {
-                    st.violations.insert(key, (i, ci, case.clone(), o));
+                    st.violations.insert(key, (i, ci, case.clone(), o, from));
                 }
             }
         }
@@ -762,6 +774,89 @@ fn minimise(mut case: Case, class: &Class, known_keys: &[String]) -> (Case, Outc
     (case, best, steps)
 }
 
+
+fn in_fresh_thread<T: Send + 'static>(f: impl FnOnce() -> T + Send + 'static) -> T {
+    std::thread::spawn(f).join().expect("harness thread panicked")
+}
+
+/// Everything a worker executed, in order, from value `from` up to case `ci` of value `vi` (probes included):
+/// re-executed on a fresh thread with the trace log on.
+fn trace_for(seed: u64, thorough: bool, from: u64, vi: u64, ci: usize) -> Vec<Case> {
+    in_fresh_thread(move || {
+        TRACE.with(|t| *t.borrow_mut() = Some(vec![]));
+        for v in from..=vi {
+            let cases = cases_for_value(seed, v, thorough);
+            let upto = if v == vi { (ci + 1).min(cases.len()) } else { cases.len() };
+            for c in &cases[..upto] {
+                run_case(c);
+            }
+        }
+        TRACE.with(|t| t.borrow_mut().take()).unwrap_or_default()
+    })
+}
+
+fn sequence_violates(seq: &[Case], class: &Class) -> Option<Outcome> {
+    let (seq, class) = (seq.to_vec(), class.clone());
+    in_fresh_thread(move || {
+        let mut last = None;
+        for c in &seq {
+            last = Some(run_case(c));
+        }
+        last.filter(|o| matches!(&o.violation, Some((c, _)) if *c == class))
+    })
+}
+
+/// Shrink a history that ends in a violation: shortest suffix first, then delta debugging on the prefix (the
+/// failing case stays last), then simple values everywhere.
+fn minimise_sequence(mut seq: Vec<Case>, class: &Class) -> (Vec<Case>, Outcome, u32) {
+    let mut best = sequence_violates(&seq, class).expect("minimise_sequence called on a passing history");
+    let mut steps = 0;
+    let mut budget = 600;
+    let mut k = 2;
+    while k < seq.len() && budget > 0 {
+        let cand = seq[seq.len() - k..].to_vec();
+        budget -= 1;
+        if let Some(o) = sequence_violates(&cand, class) {
+            seq = cand;
+            best = o;
+            steps += 1;
+            break;
+        }
+        k *= 2;
+    }
+    let mut chunk = (seq.len() - 1).max(1) / 2;
+    while chunk >= 1 && budget > 0 {
+        let mut start = 0;
+        let mut removed_any = false;
+        while start + chunk <= seq.len() - 1 && budget > 0 {
+            let mut cand = seq.clone();
+            cand.drain(start..start + chunk);
+            budget -= 1;
+            if let Some(o) = sequence_violates(&cand, class) {
+                seq = cand;
+                best = o;
+                steps += 1;
+                removed_any = true;
+            } else {
+                start += chunk;
+            }
+        }
+        if chunk == 1 && !removed_any {
+            break;
+        }
+        chunk = if removed_any { chunk.min((seq.len() - 1).max(1)) } else { chunk / 2 };
+    }
+    let cand: Vec<Case> = seq.iter().map(|c| Case { simple: true, ..c.clone() }).collect();
+    if cand != seq {
+        if let Some(o) = sequence_violates(&cand, class) {
+            seq = cand;
+            best = o;
+            steps += 1;
+        }
+    }
+    (seq, best, steps)
+}
+
 #[derive(Serialize, Deserialize)]
 struct ReplayFile {
     property: String,
@@ -771,6 +866,10 @@ struct ReplayFile {
     value_index: u64,
     case_index: usize,
     case: Case,
+    /// for a violation that depends on what was executed before on the same thread: the whole history, in order;
+    /// `case` is its last element
+    #[serde(default)]
+    sequence: Option<Vec<Case>>,
     minimised_from: Option<Case>,
     minimise_steps: u32,
     number: String,
@@ -808,6 +907,13 @@ fn main() {
     if let Some(path) = arg(&args, "--replay") {
         let txt = std::fs::read_to_string(&path).unwrap_or_else(|e| { eprintln!("cannot read {path}: {e}"); std::process::exit(2) });
         let rf: ReplayFile = serde_json::from_str(&txt).unwrap_or_else(|e| { eprintln!("bad replay file: {e}"); std::process::exit(2) });
+        if let Some(seq) = &rf.sequence {
+            println!("replay of {path}: a history of {} operations on one thread", seq.len());
+            for c in &seq[..seq.len().saturating_sub(1)] {
+                let o = run_case(c);
+                println!("  step: {} {:?} -> {}", c.type_name, c.op, if o.returned_ok { "Ok" } else { "Err" });
+            }
+        }
         let o = run_case(&rf.case);
         println!("replay of {path}: type {} op {:?}", rf.case.type_name, rf.case.op);
         println!("  number   : {}", o.expect);
@@ -886,18 +992,20 @@ fn main() {
     let d1 = run_all(threads, det_values);
     let d2 = run_all(3, det_values);
     let deterministic = d1.digest == d2.digest && d1.cases == d2.cases && d1.violations.keys().eq(d2.violations.keys());
-    if !deterministic {
-        eprintln!("HARNESS ERROR: two executions of seed {seed} differ (digest {:x} vs {:x}, cases {} vs {})", d1.digest, d2.digest, d1.cases, d2.cases);
+    if !deterministic && st.violations.is_empty() && d1.violations.is_empty() && d2.violations.is_empty() {
+        // the harness is a pure function of (seed, index): the code under test behaves differently depending on
+        // what the thread executed before, without (so far) breaking an invariant.  Not a verdict; not silence.
+        eprintln!("HARNESS ERROR: two executions of seed {seed} differ (digest {:x} vs {:x}, cases {} vs {}): behaviour depends on the history of the thread", d1.digest, d2.digest, d1.cases, d2.cases);
         std::process::exit(2);
     }
 
     let mut exit = 0;
     let mut known_hits: Vec<String> = vec![];
     let known = known_findings(&format!("{verif_dir}/known_findings.json"));
-    let mut found: Vec<(&String, &(u64, usize, Case, Outcome))> = st.violations.iter().collect();
+    let mut found: Vec<(&String, &(u64, usize, Case, Outcome, u64))> = st.violations.iter().collect();
     found.sort_by_key(|(_, v)| (v.0, v.1));
     let mut unknown_keys: Vec<String> = vec![];
-    for (key, (vi, ci, case, o)) in found {
+    for (key, (vi, ci, case, o, worker_from)) in found {
         if let Some((_, what)) = known.iter().find(|(k, _)| k == key) {
             println!("KNOWN-FINDING: property=C16 {key}: {what}");
             known_hits.push(key.clone());
@@ -908,13 +1016,41 @@ fn main() {
             continue;
         }
         let (class, msg) = o.violation.clone().unwrap();
-        let (mcase, mo, steps) = minimise(case.clone(), &class, &known.iter().map(|(k, _)| k.clone()).collect::<Vec<_>>());
+        let alone = {
+            let (c, cl) = (case.clone(), class.clone());
+            in_fresh_thread(move || same_class(&c, &cl).is_some())
+        };
         let dir = format!("{verif_dir}/replays");
         let _ = std::fs::create_dir_all(&dir);
         let path = format!("{dir}/C16-seed{seed}-v{vi}-c{ci}.json");
+        if !alone {
+            let full = trace_for(seed, thorough, *worker_from, *vi, *ci);
+            if sequence_violates(&full, &class).is_none() {
+                eprintln!("HARNESS ERROR: the violation {key} seen at value {vi} case {ci} reproduces neither alone nor from the history of its worker (values {worker_from}..={vi})");
+                std::process::exit(2);
+            }
+            let n0 = full.len();
+            let (seq, mo, steps) = minimise_sequence(full, &class);
+            let last = seq.last().unwrap().clone();
+            let rf = ReplayFile {
+                property: "C16".into(), class: class.clone(), message: mo.violation.as_ref().map(|v| v.1.clone()).unwrap_or(msg), seed, value_index: *vi, case_index: *ci,
+                case: last, sequence: Some(seq.clone()), minimised_from: None, minimise_steps: steps,
+                number: mo.expect.clone(), stored: mo.stored.clone(), returned_ok: mo.returned_ok, result: mo.result.clone(), history: mo.history.clone(), finding_key: key.clone(),
+            };
+            std::fs::write(&path, serde_json::to_string_pretty(&rf).unwrap()).expect("cannot write replay file");
+            println!("violation class {class:?} on {} (value {vi}, case {ci}) that depends on what the thread executed before; history of {n0} operations minimised in {steps} steps to {}:", case.type_name, seq.len());
+            for c in &seq {
+                println!("    {} {:?}", c.type_name, c.op);
+            }
+            println!("  {}", rf.message);
+            println!("VIOLATION property=C16 replay={path}");
+            exit = 1;
+            continue;
+        }
+        let (mcase, mo, steps) = minimise(case.clone(), &class, &known.iter().map(|(k, _)| k.clone()).collect::<Vec<_>>());
         let rf = ReplayFile {
             property: "C16".into(), class: class.clone(), message: mo.violation.as_ref().map(|v| v.1.clone()).unwrap_or(msg), seed, value_index: *vi, case_index: *ci,
-            case: mcase.clone(), minimised_from: if mcase != *case { Some(case.clone()) } else { None }, minimise_steps: steps,
+            case: mcase.clone(), sequence: None, minimised_from: if mcase != *case { Some(case.clone()) } else { None }, minimise_steps: steps,
             number: mo.expect.clone(), stored: mo.stored.clone(), returned_ok: mo.returned_ok, result: mo.result.clone(), history: mo.history.clone(), finding_key: key.clone(),
         };
         std::fs::write(&path, serde_json::to_string_pretty(&rf).unwrap()).expect("cannot write replay file");
